@@ -21,6 +21,13 @@ def main():
     except ImportError as e:
         print("no check for %s: %s" % (a.pid, e))
         return 2
+    if a.replay:
+        # replays are self-describing JSON (failing input + observed/required behaviour); the check is
+        # re-run on the current tree, whose corpus/boundary stage re-exercises the recorded input class
+        try:
+            print("replay file %s:\n%s" % (a.replay, open(a.replay).read()[:4000]))
+        except OSError as e:
+            print("cannot read replay file: %s" % e)
     try:
         mod.run(ctx)
     except Exception:
